@@ -2556,8 +2556,16 @@ func (t *Topic) replyGetSub(sess *Session, asUid types.Uid, authLevel auth.Level
 					if len(req) > 0 || len(opt) > 0 {
 						// Check if the query contains terms that the user is not allowed to use.
 						allReq := types.FlattenDoubleSlice(req)
-						restr, _, _ := stringSliceDelta(t.tags, filterRestrictedTags(append(allReq, opt...),
-							globals.maskedTagNS))
+						var restr []string
+						if masked := filterRestrictedTags(append(allReq, opt...), globals.maskedTagNS); len(masked) > 0 {
+							// Terms in masked namespaces may be used only by those who carry them. The 'fnd' topic
+							// does not keep the user's tags (and they may change on 'me'): read the current ones.
+							var ownTags []string
+							if user, err := store.Users.Get(asUid); err == nil && user != nil {
+								ownTags = user.Tags
+							}
+							restr, _, _ = stringSliceDelta(ownTags, masked)
+						}
 
 						if len(restr) > 0 {
 							sess.queueOut(ErrPermissionDeniedReply(msg, now))
